@@ -34,6 +34,7 @@ from pathlib import Path
 PREP = "pipefunc/map/_prepare.py"
 RINFO = "pipefunc/map/_run_info.py"
 PROG = "pipefunc/map/_progress.py"
+BASE = "pipefunc/_pipeline/_base.py"
 
 # function key -> (file, qualname)
 SOURCES = {
@@ -48,6 +49,10 @@ SOURCES = {
     "_requires_serialization": (RINFO, "_requires_serialization"),
     "_compare_to_previous_run_info": (RINFO, "_compare_to_previous_run_info"),
     "init_tracker": (PROG, "init_tracker"),
+    # the entry of pipeline(output, **kwargs)
+    "Pipeline.run": (BASE, "Pipeline.run"),
+    "Pipeline._validate_run_kwargs": (BASE, "Pipeline._validate_run_kwargs"),
+    "Pipeline._validate_run_kwargs.visit": (BASE, "Pipeline._validate_run_kwargs.visit"),
 }
 OPTIONAL_SOURCES = {"_storage_class", "_validate_storage"}
 
@@ -63,6 +68,9 @@ INLINE = {
     "_requires_serialization": "_requires_serialization",
     "_compare_to_previous_run_info": "_compare_to_previous_run_info",
     "init_tracker": "init_tracker",
+    "self._validate_run_kwargs": "Pipeline._validate_run_kwargs",
+    "Pipeline._validate_run_kwargs::visit": "Pipeline._validate_run_kwargs.visit",
+    "Pipeline._validate_run_kwargs.visit::visit": "Pipeline._validate_run_kwargs.visit",   # recursion: emitted once
 }
 
 # call-site text -> class.  Check: may raise, touches no file.  Effect: writes/creates/removes files.
@@ -108,6 +116,11 @@ TABLE = {
     "print": "Pure",
     # init_tracker
     "requires": "Check", "ProgressTracker": "Pure", "Status": "Pure",
+    # Pipeline.run: `self._run` is where user functions are invoked for the first time = the "effect" of this path
+    "self.func_dependencies": "Check", "self.root_args": "Check", "self._flatten_scopes": "Pure",
+    "flat_scope_kwargs.copy": "Pure", "self._run": "Effect",
+    "visited.update": "Pure", "used.add": "Pure", "flat_scope_kwargs.keys": "Pure", "sorted": "Pure",
+    "', '.join": "Pure",
 }
 
 # where the wrapped callables live (for the dynamic validation of TABLE in c12.py): callee text -> (module, attr path)
@@ -150,7 +163,9 @@ ASSUME_COMMON = {
 PATHS = {
     "steps_cleanup_false": dict(ASSUME_COMMON, cleanup=False),
     "steps_cleanup_true": dict(ASSUME_COMMON, cleanup=True),
+    "steps_run": {},
 }
+ENTRY = {"steps_run": "Pipeline.run"}        # default entry: prepare_run
 
 
 class TranslateError(Exception):
@@ -281,7 +296,8 @@ class Walker:
         key = INLINE.get(f"{here}::{callee}", INLINE.get(callee))
         if key is not None and key in self.funcs:
             if key in self.stack:
-                raise TranslateError(f"recursive inlining of {key}")
+                self.emit("Pure", callee + " (recursive call, body emitted once)")
+                return
             saved = self.guards
             self.guards = []
             self.stack.append(key)
@@ -385,8 +401,9 @@ def translate(repo: Path):
     out = {}
     for name, assume in PATHS.items():
         w = Walker(funcs, dict(assume))
-        w.stack.append("prepare_run")
-        w.block(funcs["prepare_run"].body)
+        entry = ENTRY.get(name, "prepare_run")
+        w.stack.append(entry)
+        w.block(funcs[entry].body)
         out[name] = w.steps
     return out, static_table_problems(trees)
 
@@ -401,7 +418,10 @@ def static_table_problems(trees):
     for callee, cls in TABLE.items():
         if cls != "Pure":
             continue
-        simple = callee.split("::")[-1].split(".")[-1]
+        text = callee.split("::")[-1]
+        if "." in text and text.rsplit(".", 1)[0] not in ("self", "pipeline", "RunInfo", "cls", "run_info"):
+            continue        # a method of some local object (set.add, str.join, dict.keys, ...): not defined in these files
+        simple = text.split(".")[-1]
         for node in flat.get(simple, []):
             if isinstance(node, ast.ClassDef):
                 continue
@@ -425,7 +445,7 @@ def coq_str(x: str) -> str:
 
 def emit_coq(paths, repo: Path) -> str:
     lines = ["(* GENERATED on every C12 run by harness/translate_prepare.py from the Python sources of",
-             f"   {repo} (pipefunc/map/_prepare.py, _run_info.py, _progress.py).  Do not edit, do not commit. *)",
+             f"   {repo} (pipefunc/map/_prepare.py, _run_info.py, _progress.py, _pipeline/_base.py).  Do not edit, do not commit. *)",
              "From Verif Require Import Base.Prelude Model.PrepareSteps.", ""]
     for name, steps in paths.items():
         lines.append(f"Definition {name} : list step := [")
